@@ -1519,6 +1519,9 @@ def _ev(e, env, degree):
         if x is None or isinstance(x, str):
             return (type(x).__name__ in types) if isinstance(x, str) else False
         return UNK
+    if isinstance(e, ast.Call) and isinstance(e.func, ast.Name) and e.func.id == "len" and len(e.args) == 1 and not e.keywords:
+        x = _ev(e.args[0], env, degree)
+        return len(x) if isinstance(x, (tuple, str)) else UNK
     if isinstance(e, ast.Call) and isinstance(e.func, ast.Name) and e.func.id in ("max", "min", "int") and e.args and not e.keywords:
         vs = [_ev(a, env, degree) for a in e.args]
         if any(v is UNK or not isinstance(v, int) for v in vs):
